@@ -51,7 +51,7 @@ Section Exec.
   Lemma run_on_reach_nc fuel s' : run_on site host in_scope maxredir starts conc fuel [] [] [] = Some s' -> reach_nc s'.
   Proof.
     unfold run_on, Engine.boot. intros H.
-    destruct (fire LRelease (mkState [] [] [] [] [] [] Down)) as [s1|] eqn:E1; [|discriminate].
+    destruct (fire LRelease (mkState [] [] [] [] [] [] Down 0)) as [s1|] eqn:E1; [|discriminate].
     destruct (fire LAddStarts s1) as [s2|] eqn:E2; [|discriminate].
     apply (seq_run_reach_nc fuel s2 s'); [|exact H].
     econstructor; [econstructor; [constructor|]|].
@@ -66,6 +66,7 @@ Section Exec.
     - rewrite M, I in H. cbn [n_started filter length start_first] in H. destruct (0 <? conc)%nat; discriminate.
     - rewrite M, I in H. destruct n; discriminate.
     - discriminate.
+    - rewrite M in H. discriminate.
     - rewrite M in H. discriminate.
     - rewrite M in H. discriminate.
   Qed.
